@@ -53,7 +53,53 @@ _counter = itertools.count()
 # ----------------------------------------------------------------------------- betterproto classes
 
 
-def make_bp(schema, modname=None):
+_TWIN_KIND = {"int32": "string", "int64": "bytes", "uint32": "sint32", "uint64": "double", "sint32": "fixed64", "sint64": "string",
+              "fixed32": "int64", "fixed64": "bool", "sfixed32": "string", "sfixed64": "uint32", "bool": "sfixed32", "float": "int32",
+              "double": "string", "string": "sint64", "bytes": "fixed32", "enum": "enum"}
+
+
+def twin_schema(schema):
+    """a schema with the same type, field and enum *names* (hence textually identical annotations) but other scalar kinds and
+    enum numbers: whatever the library remembers per class must not leak between same-named classes of different modules"""
+    types_ = {}
+    for ty, fields in schema["types"].items():
+        out = []
+        for f in fields:
+            g = dict(f)
+            if f["kind"] in _TWIN_KIND and f["card"] != "map":
+                g["kind"] = _TWIN_KIND[f["kind"]]
+            elif f["kind"] == "wrap":
+                g["vkind"] = {"int32": "string", "string": "int32"}.get(f["vkind"], f["vkind"])
+            out.append(g)
+        types_[ty] = out
+    enums = {e: [[n, (v + 3 if v else 0)] for n, v in ms] for e, ms in schema.get("enums", {}).items()}
+    return {"types": types_, "enums": enums}
+
+
+def prime(classes, schema):
+    """use every class once (metadata, map entry classes, defaults are created lazily on first use)"""
+    for ty, fields in schema["types"].items():
+        cls = classes[ty]
+        m = cls()
+        bytes(m), m.to_dict()
+        for f in fields:
+            try:
+                v = getattr(m, py(f))
+            except AttributeError:
+                continue
+            if f["card"] == "map":
+                key = {"string": "k", "bool": True}.get(f["kkind"], 1)
+                val = classes[f["msg"]]() if f["vkind"] == "message" else classes[f["enum"]](0) if f["vkind"] == "enum" else \
+                    {"string": "v", "bytes": b"v", "bool": True, "float": 1.0, "double": 1.0}.get(f["vkind"], 1)
+                cls().parse(bytes(cls(**{py(f): {key: val}})))
+            elif f["card"] == "repeated" and f["kind"] == "message":
+                cls().parse(bytes(cls(**{py(f): [classes[f["msg"]]()]})))
+
+
+def make_bp(schema, modname=None, twin=True):
+    if twin:
+        ts = twin_schema(schema)
+        prime(make_bp(ts, twin=False), ts)
     modname = modname or "verif_dyn_%d" % next(_counter)
     mod = types.ModuleType(modname)
     sys.modules[modname] = mod
